@@ -308,8 +308,7 @@ def make_source(source: str, data: bytes):
     if source == "seek":
         return io.BytesIO(data)
     if source.startswith("raw:"):
-        n = int(source[4:])
-        return RawSource(data, [n])
+        return RawSource(data, [int(x) for x in source[4:].split(",")])
     raise ValueError(source)
 
 
